@@ -11,7 +11,7 @@ MANIFEST = dict(
     engine="e2e+nsim", category="exploration",
     technique="runtime monitoring: parser of the real binary's stdout bytes (pipe and pty) over uniquely tagged command output; counter "
               "monitor at the Status boundary (nsim tap on the real StatusPrinter)",
-    text="Commands write uniquely tagged chunks (including NUL bytes and ANSI colour sequences, with and without a final newline) in "
+    text="(Round 10: rules with a 'description' - one text for every statement, or one each - and status formats without a counter that moves between two completions, so that consecutive status lines are the same bytes; the block of a described command must follow its own formatted status line.) Commands write uniquely tagged chunks (including NUL bytes and ANSI colour sequences, with and without a final newline) in "
          "several write()s over time on stdout and stderr while -j 1..8 other commands run; some fail, some are restat-pruned, some "
          "run in the console pool. Oracle on ninja's stdout bytes: for every command the concatenation of its chunks occurs exactly "
          "once, contiguously, directly after that command's own status line (after 'FAILED: [code=N] outputs' and the full command "
